@@ -188,13 +188,13 @@ fn robust(c: &Call, base: &Out<Ans<i64>>, size: usize) -> Option<String> {
         .or_else(|| if small { variant::<F32>(c, base, true, true) } else { None })
         .or_else(|| if small { variant::<Usize>(c, base, true, true) } else { None })
         .or_else(|| if small { variant::<Str>(c, base, true, true) } else { None })
-        // odd layouts: up to 600 elements all three on both receivers; up to 20 000 the 12- and 3-byte tuples on the plain receiver and
-        // the 32-byte one on the Result receiver; above that one of the three in turn
-        .or_else(|| if huge { if rot == 0 { variant::<L12>(c, base, true, false) } else { variant::<L3>(c, base, true, false) } } else { None })
-        .or_else(|| if huge && HUGE_ROT.load(Ordering::Relaxed) % 8 == 3 { variant::<L32>(c, base, true, false) } else { None })
-        .or_else(|| if huge { None } else { variant::<L12>(c, base, true, small) })
-        .or_else(|| if huge { None } else { variant::<L3>(c, base, true, small) })
-        .or_else(|| if huge { None } else { variant::<L32>(c, base, small, true) })
+        // odd layouts: ONE of the three in turn — up to 600 elements on both receivers, above that on the plain receiver (huge
+        // results: on every second case, the 32-byte one on every 12th)
+        .or_else(|| {
+            let turn = LAYOUT_ROT.fetch_add(1, Ordering::Relaxed);
+            if huge { match turn % 12 { 0 | 4 | 8 => variant::<L12>(c, base, true, false), 2 | 6 | 10 => variant::<L3>(c, base, true, false), 5 => variant::<L32>(c, base, true, false), _ => None } }
+            else { match turn % 3 { 0 => variant::<L12>(c, base, true, small), 1 => variant::<L3>(c, base, true, small), _ => variant::<L32>(c, base, true, small) } }
+        })
 }
 
 /// aliasing: when both operands of `broadcast` / `zip` are the same array, the call with the SAME OBJECT on both sides
@@ -943,6 +943,7 @@ static ORACLE_ONLY: AtomicUsize = AtomicUsize::new(0);
 static ABA_RERUNS: AtomicUsize = AtomicUsize::new(0);
 static HUGE_ROT: AtomicUsize = AtomicUsize::new(0);
 static GIANT: AtomicUsize = AtomicUsize::new(0);
+static LAYOUT_ROT: AtomicUsize = AtomicUsize::new(0);
 static GIANT_ROT: AtomicUsize = AtomicUsize::new(0);
 
 fn has_zero(s: &[usize]) -> bool { s.iter().any(|&d| d == 0) }
